@@ -1847,6 +1847,8 @@ class Interp:
         raise CheckerError('min of symbolic values unsupported')
 
     def bi_sorted(self, args, kwargs, node):
+        if hasattr(args[0], 'sorted') and not kwargs:
+            return args[0].sorted(self, node)
         items = self.iterate(args[0], node)
         if all(is_native(x) for x in items) and not kwargs:
             return sorted(items)
